@@ -10,20 +10,30 @@ CONSTANT Depth
 VARIABLE hist
 hvars == <<vars, hist>>
 
+\* menus: Own/Border = attributes that Customise may assign, Values = what is assigned ("*" stands for one value
+\* that suits the attribute: "#" for characters, "[{}]" for formats, "bold" for cell / rule styles)
 MCOwn == {"padding_char"}
-MCBorder == {"line_hc_char", "line_vc_char", "crossing_c_char"}
-MCValues == {"#"}
-MCOwn2 == {"padding_char", "cell_format"}
-MCBorder2 == {"line_ht_char", "line_hc_char", "line_vc_char", "crossing_c_char"}
-MCValues2 == {"#", ""}
+MCBorder == {"line_hc_char", "crossing_c_char"}
+MCValues == {"*"}
+MCOwnAll == OwnAll
+MCBorderAll == BorderAll
+MCValues2 == {"*", ""}
+ValueFor(f, v) == IF v # "*" THEN v
+                  ELSE IF f \in {"cell_format", "header_cell_format"} THEN "[{}]"
+                  ELSE IF f \in {"cell_style", "header_cell_style", "style"} THEN "bold" ELSE "#"
+\* alignment customisations: right-align column 0 / centre column 1 through the setter, assign a list, change the default
+MCAligns == {<<"set_column_alignment", 0, 1, <<>>>>, <<"set_column_alignment", 1, 2, <<>>>>,
+             <<"column_alignments", 0, 0, <<2, 1>>>>, <<"default_column_alignment", 0, 1, <<>>>>}
 
 HInit == Init /\ hist = <<>>
 
 SNext == /\ Len(hist) < Depth
          /\ \/ \E k \in Kinds : Make(k)
-            \/ \E s \in 1..Len(styles), f \in OwnFields \cup BorderFields, v \in Values : Customise(s, f, v)
+            \/ \E s \in 1..Len(styles), f \in OwnFields \cup BorderFields, v \in Values : Customise(s, f, ValueFor(f, v))
+            \/ \E s \in 1..Len(styles), m \in MCAligns : Align(s, m[1], m[2], m[3], m[4])
          /\ hist' = Append(hist, [op |-> last'.op, kind |-> last'.kind, s |-> last'.s, field |-> last'.field,
-                                  value |-> last'.value, eff |-> AllEffective'])
+                                  value |-> last'.value, col |-> last'.col, a |-> last'.a, seq |-> last'.seq,
+                                  eff |-> AllEffective'])
 SSpec == HInit /\ [][SNext]_hvars
 
 IOs == {[utf8 |-> TRUE, ansi |-> FALSE, verb |-> "normal"], [utf8 |-> FALSE, ansi |-> FALSE, verb |-> "normal"],
